@@ -906,4 +906,33 @@ Section Sim.
     split; [exact Hv|]. destruct Hv as (v & Hv).
     destruct (b_temp _ _ _ _ _ _ B v b Hv) as (_ & He & _). exact He.
   Qed.
+
+  (* C24 (parent side): a value that is moved into a subgraph's capture environment (captured by
+     value) has no remaining use: no later operator reads it and it is not a requested output *)
+  Lemma moved_not_needed env rest o n s s2 taken moved :
+    binv (val env) [] s -> cinv env (o :: rest) s -> get_op g o = Some n ->
+    step_take g S y s o n = ROk (s2, taken, moved) ->
+    forall v b, In (v, b) moved -> In v (cap_deps g n) /\ uses rest v = 0%nat.
+  Proof.
+    intros B C En Etk v b Hin.
+    destruct (step_take_ok env rest o n s B C En)
+      as (s2' & taken' & moved' & cs' & E & _ & _ & _ & _ & _ & _ & _ & _ & Hm & _).
+    rewrite Etk in E. injection E as <- <- <-.
+    destruct (Hm v b Hin) as (Hc & _ & Hu). split; [exact Hc|].
+    rewrite (uses_cons _ _ _ _ En), deps_split, cnt_app in Hu. apply cnt_pos_In in Hc. lia.
+  Qed.
+
+  (* C24 (parent side): in a state satisfying the invariants -- in particular after any step,
+     including the step of a subgraph operator -- every value that is still needed is found,
+     and its buffer holds the value the naive evaluation assigns to it *)
+  Lemma needed_values_intact env rest s :
+    binv (val env) [] s -> cinv env rest s ->
+    forall v x, val env v = Some x -> (0 < uses rest v)%nat ->
+      exists b, locate ext s v = Some b /\ heap s b = Some x.
+  Proof.
+    intros B C v x Hv Hu.
+    assert (Hl : locate ext s v <> None) by (apply (c_avail _ _ _ C v); [congruence|exact Hu]).
+    destruct (locate ext s v) as [b|] eqn:El; [|congruence].
+    destruct (locate_sound _ _ _ _ _ B (xv_val env) El) as (x' & Hx' & Hv'). exists b. split; [reflexivity|congruence].
+  Qed.
 End Sim.
